@@ -79,9 +79,6 @@ def rle (l : List Nat) : String :=
   | [] => "-"
   | rs => joinWith "+" (rs.map fun r => toString r.1 ++ "*" ++ toString r.2)
 
-/-- blocks of the `batches` operation: (prefix length, data length) -/
-def pairSized : Sized (Nat × Nat) := ⟨Prod.fst, Prod.snd⟩
-
 def showOptNat : Option Nat → String
   | none => "none"
   | some n => toString n
@@ -93,7 +90,7 @@ def batchesOp (v codec mh dlen : Nat) (sizes : List Nat) : Option String :=
   | some cid =>
     let plen := cid.toPrefix.toBytes.length
     let blocks := sizes.map fun s => (plen, s)
-    let r := sendResponse pairSized Consts.MAX_BATCH_SIZE Consts.MAX_BATCH_BLOCKS Consts.MAX_MESSAGE_SIZE blocks
+    let r := sendResponse lenPair Consts.MAX_BATCH_SIZE Consts.MAX_BATCH_BLOCKS Consts.MAX_MESSAGE_SIZE blocks
     let msgs := (r.1.filter (·.sent)).map fun st =>
       showOptNat st.enc ++ "/" ++ rle (st.batch.map Prod.snd)
     let plan := r.1.map fun st =>
